@@ -73,6 +73,14 @@ class Selection:
             cwd = "" if i % 3 == 0 else rng.choice([""] + dirs + dirs)
             cases.append({"libs": [], "comps": comps, "foreign": [], "cwd": cwd, "release": False, "pkgdir": "default",
                           "seed_ids": [], "seed_kind": 0})
+        # designed: dependencies of mixed kinds -- a libcnb.rs buildpack whose own package.toml depends on a composite that
+        # depends on another libcnb.rs buildpack: the announced build order has every buildpack after its dependencies
+        for cwd in ("", "buildpacks/k"):
+            cases.append({"libs": [{"dir": "buildpacks/leaf", "id": "sel/leaf", "pkg": "pleaf", "bins": ["pleaf"], "extra": "", "aux": []},
+                                   {"dir": "buildpacks/k", "id": "sel/k", "pkg": "pk", "bins": ["pk"], "extra": "", "aux": [],
+                                    "own_pkg": True, "pkg_deps": ["sel/m"]}],
+                          "comps": [{"dir": "meta/m", "id": "sel/m", "deps": [["lib", "sel/leaf"]], "uri": ".", "os": None}],
+                          "foreign": [], "cwd": cwd, "release": False, "pkgdir": "default", "seed_ids": [], "seed_kind": 0})
         return cases
 
     def run_impl(self, cases, workdir):
